@@ -509,6 +509,72 @@ def check_macros(ctx, n):
                    {"kind": "counterexample", "input": {"lines": lines, "pp_defs": {}}, "implementation": out[1], "oracle": "x = (1+2) * (3+4)"})
 
 
+EXPAND_IMPORTS = ("From FV Require Import Base.Str C08.Expand.\n"
+                  "Definition ex (t : list (str * str)) (l : str) : str := expand ascii_word t l.\n"
+                  "Definition exo (t : list (str * str)) (l : str) : str := expand_objects ascii_word t l.\n")
+
+
+def check_expand_model(ctx, n):
+    """C08/Expand.v against preprocess_file: object-like macros (one, and two applied in the order of the table, bodies that
+    name the other macro included) and the parameters of a function-like macro (simultaneous: an argument that spells
+    another parameter is not substituted again).  Bodies and parameter lists are taken from the macro table the
+    implementation returns, the model is about the substitution."""
+    from fortls.parsers.internal.parser import preprocess_file
+    rng = ctx.rng
+    coq = ctx.coq(EXPAND_IMPORTS)
+    exprs, meta = [], []
+    names = ["MX", "N_1", "VAL", "Q"]
+    frag = ["MX", "N_1", "VAL", "Q", "xMX", "MX_z", "_Q", "Q9", "9Q", " ", " + ", "(", ")", "%", ".", ",", "'", "y", "=", "1", "MXMX", "val", "mx", "&", "!", "::"]
+
+    def pair(k, v):
+        return "(%s, %s)" % (cstr(k), cstr(v))
+    for k in range(n):
+        mode = rng.choice(["one", "two", "two", "fun"])
+        line = "".join(rng.choice(frag) for _ in range(rng.choice([1, 3, 5, 8])))
+        if line.lstrip().startswith("#") or not line.strip():
+            line = "y = " + line
+        if mode in ("one", "two"):
+            chosen = rng.sample(names, 1 if mode == "one" else 2)
+            defs = []
+            for nm in chosen:
+                body = rng.choice(NASTY + ["3", "x_y", "(1+2)", "( n )"] + [c for c in chosen if c != nm] + ["%s + 1" % chosen[-1]])
+                defs.append("#define %s %s" % (nm, body))
+            src = defs + [line]
+            try:
+                out, _, _, tab = preprocess_file(list(src), pp_defs={})
+            except Exception as ex:      # noqa: BLE001
+                ctx.report("C08:expand-crash", "preprocess_file raises %s" % type(ex).__name__, {"kind": "counterexample", "input": {"lines": src, "pp_defs": {}}})
+                continue
+            if any(not isinstance(tab.get(nm), str) for nm in chosen):
+                continue
+            ctx.count(("expand", tuple(src)), any(nm in line for nm in chosen))
+            exprs.append("str_eqb (exo %s %s) %s" % (clist([(nm, tab[nm]) for nm in chosen], lambda kv: pair(*kv)), cstr(line), cstr(out[-1])))
+            meta.append({"lines": src, "implementation": out[-1]})
+        else:
+            params = rng.choice([["u", "v"], ["u", "v"], ["a", "bb"], ["x"]])
+            body = rng.choice(["(u+v)", "v - u", "foo(u, v)", "u*uv+v_u", "a%bb(a)", "x.x x", "u\\v", "uu", "bb a bb"])
+            args = [rng.choice(["1", "a", "b+3", "u", "v", "x y", " c ", "bb", "uv"]) for _ in params]
+            pre, post = rng.choice(["z = ", "call s(", ""]), rng.choice(["", " + 1", ") ! t"])
+            src = ["#define FN(%s) %s" % (",".join(params), body), pre + "FN(" + ",".join(args) + ")" + post]
+            try:
+                out, _, _, tab = preprocess_file(list(src), pp_defs={})
+            except Exception as ex:      # noqa: BLE001
+                ctx.report("C08:expand-crash", "preprocess_file raises %s" % type(ex).__name__, {"kind": "counterexample", "input": {"lines": src, "pp_defs": {}}})
+                continue
+            val = tab.get("FN")
+            if not isinstance(val, tuple):
+                continue
+            ps = [a.strip() for a in val[0].split(",")]
+            ctx.count(("expand-fun", tuple(src)), True)
+            exprs.append("str_eqb (%s ++ ex %s %s ++ %s) %s" % (cstr(pre), clist(list(zip(ps, args)), lambda kv: pair(*kv)), cstr(val[1]), cstr(post), cstr(out[-1])))
+            meta.append({"lines": src, "implementation": out[-1]})
+    bad = coq.bools(exprs, shard=400)
+    ctx.cov["traces_validated_against_impl"] = ctx.cov.get("traces_validated_against_impl", 0) + len(exprs)
+    for b in bad[:3]:
+        ctx.report("C08:expand-model-mismatch", "preprocess_file substitutes a macro differently from C08.Expand (whole-word scan) on %r" % (meta[b]["lines"],),
+                   {"kind": "broken-correspondence", "input": dict(meta[b], pp_defs={}), "correspondence": "FV.C08.Expand.expand vs preprocess_file"}, found_input=False)
+
+
 # ----------------------------------------------------------------------------- end to end: declarations in regions
 
 def check_end_to_end(ctx, progs):
@@ -595,6 +661,7 @@ def run(ctx):
             rnd.append((toks, init))
     check_programs(ctx, rnd, "random", ctx.rng)
     check_macros(ctx, 200 if q else 5000)
+    check_expand_model(ctx, 300 if q else 6000)
     # directed: a declaration right after a directive whose condition contains `&&` (regression, fixed in /repo) and after #elif/#else
     A, B = ("def", "A"), ("def", "B")
     directed = [
